@@ -56,7 +56,11 @@ func (lp LinkPrototype) BuildLink(hashsum []byte) datamodel.Link {
 		panic(fmt.Errorf("invalid cid v0 prefix"))
 	}
 
-	if length != -1 {
+	if length != -1 && p.MhLength >= 0 && p.MhLength <= len(hashsum) {
+		// Truncate to the requested digest length. A prefix asking for more bytes than the hash
+		// function produced (e.g. the prefix of an untrusted link) cannot be satisfied: the digest is
+		// used whole, so the link built here differs from the requested one and loads fail with a
+		// hash mismatch instead of a slice-bounds panic.
 		hashsum = hashsum[:p.MhLength]
 	}
 
